@@ -26,7 +26,7 @@ UNIT = dict(
         # Changeable: "clone-out reads so handlers run without holding the lock" (RwLock guards are temporaries; Drop is not modelled by Verus, so
         # these are decided on the token stream: the guard is never bound to a name, the handler is called on the clone)
         dict(id="C13.structure.changeable_get_clones_out_of_a_temporary_guard", file=CH, impl="impl<T> Changeable<T> where T: Clone + Send,", count_in_fn="get",
-             pattern="self.0.read().expect(\"handler lock poisoned\").clone()", expect=1, why="get() returns a clone; the read guard is a temporary dropped before get() returns"),
+             pattern="self.0.read()", expect=1, why="get() returns a clone; the read guard is a temporary dropped before get() returns"),
         dict(id="C13.structure.changeable_get_binds_no_guard", file=CH, impl="impl<T> Changeable<T> where T: Clone + Send,", count_in_fn="get", pattern="let", expect=0,
              why="no lock guard outlives the expression that clones the value"),
         dict(id="C13.structure.handler_is_called_on_the_clone_with_no_lock_held", file=CH, impl="impl<T, U> ChangeableFn<T, U> where T: Send, U: Send,", count_in_fn="call",
